@@ -4,6 +4,7 @@
 //!  (2) the genuine message validates, with every legal tail (MI; SHA256; MI+SHA256; each with or without FINGERPRINT);
 //!  (3) every single-bit fault in the protected prefix (other than the two length bytes) and in the MAC, every pair of equal
 //!      bit flips in two MAC bytes, the reversed and the rotated MAC are rejected;
+//!      a shortened integrity value (0-12 bytes) is rejected;
 //!  (4) 256 wrong passwords are rejected;
 //!  (5) long-term keys: equal for OpaqueString-equivalent spellings of realm / password, and equal to MD5 / SHA-256 of
 //!      user:realm:password for plain ASCII.
@@ -73,6 +74,17 @@ fn main() {
             for i in 0..maclen { for j in (i + 1)..maclen { if (i + j) % 5 == 0 { let mut b = buf.clone(); b[pos + 4 + i] ^= 0x10; b[pos + 4 + j] ^= 0x10; tampered.push((format!("the same bit of MAC bytes {} and {}", i, j), b)); } } }
             { let mut b = buf.clone(); b[pos + 4..pos + 4 + maclen].reverse(); if b != buf { tampered.push(("reversed MAC".into(), b)); } }
             { let mut b = buf.clone(); b[pos + 4..pos + 4 + maclen].rotate_left(1); if b != buf { tampered.push(("rotated MAC".into(), b)); } }
+            // a shortened integrity value (0, 4, 8, 12 bytes of the genuine MAC, RFC 8489 allows nothing below 16) in place of the
+            // attribute, everything after it dropped, header length fixed: must never count as authenticated, under any key
+            for keep in [0usize, 4, 8, 12] {
+                let mut b = buf[..pos + 4 + keep].to_vec();
+                b[pos + 2] = 0; b[pos + 3] = keep as u8;
+                let l = (b.len() - 20) as u16;
+                b[2..4].copy_from_slice(&l.to_be_bytes());
+                tampered.push((format!("the value for its first {} bytes", keep), b.clone()));
+                // ... and with a changed prefix byte as well (a forgery that needs no key at all when keep == 0)
+                if pos > 24 { b[24] ^= 0x01; tampered.push((format!("the value for its first {} bytes and prefix byte 24", keep), b)); }
+            }
             for (what, b) in tampered {
                 // a FINGERPRINT after the change would fail first; that is also a rejection, which is what matters here
                 if accepted(&b, &key) { println!("WITNESS: tail {}: message accepted after changing {} (attribute {:#06x})", name, what, t); bad += 1; break; }
